@@ -369,6 +369,8 @@ def _build_records(trees, known):
                 for n in ast.walk(pe):
                     if isinstance(n, ast.Name) and n.id == psn:
                         pass
+                    elif isinstance(n, ast.Name) and n.id == "constants" and _module_bindings(t).get("constants", ("",))[0] == "from":
+                        pass          # a constant of the package (the using module must import `constants` the same way: checked where it is expanded)
                     elif isinstance(n, ast.Name) and n.id not in IMMUTABLE_BUILTINS:
                         bad_prop = True
                 bases_ = set(id(n.value) for n in ast.walk(pe) if isinstance(n, ast.Attribute) and isinstance(n.value, ast.Name) and n.value.id == psn and (n.attr in fields or n.attr in props))
@@ -1402,7 +1404,7 @@ class FuncCanon(object):
         changed = False
         for blk in _all_blocks(self.fn):
             top = blk is self.fn.body
-            if self.prop(blk) or self.lencomp(blk) or self.star(blk) or self.callsel(blk) or self.tuplepush(blk) or self.sumloop(blk) or self.listcomp(blk) or self.unroll(blk) or self.listbuild(blk) or self.copyinout(blk) or self.copyin(blk) or self.copyprop(blk) or self.initsort(blk) or self.lockwith(blk) or self.flagloop(blk) or self.ifflag(blk) or self.flageq(blk) or self.thread(blk) or self.deadstore(blk) or self.kw(blk) or self.split(blk) or self.retsplit(blk) or self.unindex(blk) or self.yieldsplit(blk) or self.forelse(blk) or self.dowhile(blk) or self.withsink(blk) or self.testsplit(blk) or self.rot(blk) or self.brk(blk, top) or self.wtop(blk) or self.ifs(blk) or self.sink(blk) or self.unpack(blk) or self.fwd(blk):
+            if self.prop(blk) or self.revdisplay(blk) or self.lencomp(blk) or self.star(blk) or self.callsel(blk) or self.tuplepush(blk) or self.sumloop(blk) or self.listcomp(blk) or self.unroll(blk) or self.listbuild(blk) or self.copyinout(blk) or self.copyin(blk) or self.copyprop(blk) or self.initsort(blk) or self.lockwith(blk) or self.flagloop(blk) or self.ifflag(blk) or self.flageq(blk) or self.thread(blk) or self.deadstore(blk) or self.kw(blk) or self.split(blk) or self.retsplit(blk) or self.unindex(blk) or self.yieldsplit(blk) or self.forelse(blk) or self.dowhile(blk) or self.withsink(blk) or self.testsplit(blk) or self.rot(blk) or self.brk(blk, top) or self.wtop(blk) or self.ifs(blk) or self.sink(blk) or self.unpack(blk) or self.fwd(blk):
                 return True
         return changed
 
@@ -2674,6 +2676,35 @@ class FuncCanon(object):
                             return True
         return False
 
+    # -- REVDISPLAY ------------------------------------------------------------------------------------------------
+    def revdisplay(self, blk):
+        """`(a, b)[::-1]` -> `(b, a)` for call-free elements (nothing to evaluate in another order); `(a, b)[k]` -> the element"""
+        for st in blk:
+            for n in self._own_exprs(st):
+                for fld, val in ast.iter_fields(n):
+                    vals = val if isinstance(val, list) else [val]
+                    for k, c in enumerate(vals):
+                        if isinstance(c, ast.Subscript) and isinstance(c.ctx, ast.Load) and isinstance(c.value, (ast.Tuple, ast.List)) and not any(isinstance(x, ast.Starred) or _has_call(x) for x in c.value.elts):
+                            new = None
+                            sl = c.slice
+                            if isinstance(sl, ast.Slice) and sl.lower is None and sl.upper is None and isinstance(sl.step, ast.UnaryOp) and isinstance(sl.step.op, ast.USub) \
+                                    and isinstance(sl.step.operand, ast.Constant) and sl.step.operand.value == 1:
+                                new = type(c.value)(elts=list(reversed(c.value.elts)), ctx=ast.Load())
+                            elif isinstance(sl, ast.Slice) and sl.lower is None and sl.upper is None and isinstance(sl.step, ast.Constant) and sl.step.value == -1:
+                                new = type(c.value)(elts=list(reversed(c.value.elts)), ctx=ast.Load())
+                            elif isinstance(sl, ast.Constant) and isinstance(sl.value, int) and not isinstance(sl.value, bool) and -len(c.value.elts) <= sl.value < len(c.value.elts):
+                                new = c.value.elts[sl.value]
+                            if new is not None:
+                                new = ast.copy_location(new, c)
+                                ast.fix_missing_locations(new)
+                                if isinstance(val, list):
+                                    val[k] = new
+                                else:
+                                    setattr(n, fld, new)
+                                self.bump("REVDISPLAY")
+                                return True
+        return False
+
     # -- LENCOMP ---------------------------------------------------------------------------------------------------
     def lencomp(self, blk):
         """`len([E for .. if C])` -> `sum((1 for .. if C))` when E is call-free (it is computed only to be counted)"""
@@ -2707,11 +2738,15 @@ class FuncCanon(object):
                     # self.<attr>.<method>(*f(..)): the starred value is the result of a package function that always returns an n-tuple, the
                     # method takes exactly n arguments  ->  the result is bound to a temporary first (the attribute look-up has no effect)
                     ps0 = self._attr_method_params(n.func)
+                    stable_f = ps0 is not None and f_is_stable_attr(self, n.func)
+                    if ps0 is None:
+                        ps0 = self._record_callee_params(n.func)
+                        stable_f = ps0 is not None
                     if ps0 is not None and len(n.args) == 1 and not n.keywords and isinstance(n.args[0], ast.Starred) and ps0[1] == 0 and ps0[0] \
                             and isinstance(st, (ast.Expr, ast.Assign)) and (st.value is n or (isinstance(st.value, ast.Await) and st.value.value is n)):
                         sv = n.args[0].value
                         inner = sv.value if isinstance(sv, ast.Await) else sv
-                        if isinstance(inner, ast.Call) and self._call_arity(inner) == len(ps0[0]) and f_is_stable_attr(self, n.func):
+                        if isinstance(inner, ast.Call) and self._call_arity(inner) == len(ps0[0]) and stable_f:
                             k_ = 1
                             while ("_st%d" % k_) in self.stores or ("_st%d" % k_) in self.loads:
                                 k_ += 1
@@ -2734,6 +2769,28 @@ class FuncCanon(object):
                         self.bump("STAR")
                         return True
         return False
+
+    def _record_callee_params(self, f):
+        """(parameter names, number of defaults) when f is the constructor of a record class, or a method of a local bound once to a record object"""
+        def sig(d):
+            a = d.args
+            if a.vararg or a.kwarg or a.kwonlyargs or a.posonlyargs:
+                return None
+            return [x.arg for x in a.args][1:], len(a.defaults)
+        if isinstance(f, ast.Name) and f.id in RECORDS and f.id not in self.params and not self.stores.get(f.id):
+            return sig(RECORDS[f.id][2]["__init__"][0])
+        if isinstance(f, ast.Attribute) and isinstance(f.value, ast.Name):
+            v = f.value.id
+            sts = self.stores.get(v, [])
+            if v in self.params or v in self.captured or len(sts) != 1:
+                return None
+            for b in _all_blocks(self.fn):
+                for s_ in b:
+                    if isinstance(s_, ast.Assign) and len(s_.targets) == 1 and s_.targets[0] is sts[0] and isinstance(s_.value, ast.Call) and isinstance(s_.value.func, ast.Name) \
+                            and s_.value.func.id in RECORDS and not self.stores.get(s_.value.func.id):
+                        hm = RECORDS[s_.value.func.id][2].get(f.attr)
+                        return sig(hm[0]) if hm is not None else None
+        return None
 
     def _attr_method_params(self, f):
         a = self.fn.args
@@ -4027,6 +4084,9 @@ class Inliner(object):
                 continue
             kdef, home, methods, fields = rec
             props = getattr(kdef, "_sa_props", {})
+            if props and any(isinstance(x, ast.Name) and x.id == "constants" for _sn, pe_ in props.values() for x in ast.walk(pe_)) \
+                    and _module_bindings(self.tree).get("constants", ("",))[0] != "from":
+                continue
             if props:
                 # `v.p` for a read-only property p: the expression it returns, with v for self (repeated: a property may read another)
                 for _r in range(4):
